@@ -11,6 +11,7 @@ CONSTANTS
   Bases = {0}
   Gates = {FALSE}
   Kinds = {"block"}
+  MaxSizes = {100}
   MaxBatch = 10
   Cap = 10
   FailLimit = 3
